@@ -343,6 +343,7 @@ void CloseFile(void) {
         ChkIO(ErrNum_FileWriteError);
     }
     fclose(PrgFile);
+    PrgFile = NULL; /* a later fatal error closes what is still open */
 }
 
 /*--- erzeugten Code einer Zeile in Datei ablegen ---------------------------*/
